@@ -3,6 +3,11 @@
 import json
 
 CLAIMED = {
+    "C11": {
+        "text": "Proof: Lean theorems over the context model: redefinition is functional update of one scope (lookup_scopeInsert), lookup returns the binding of the innermost scope that defines the name (lookup_innermost), names an inner scope does not define resolve outward, dropping an inner scope restores the parent exactly for every sequence of inner definitions (drop_restores_parent, induction over the definition list), variables and functions never affect each other's lookups and may share a name, add_function on a child is ignored; inside a macro body the iteration variable denotes the current element whatever the outer context binds, other names keep their outer meaning, and the expression following a macro is evaluated in the original context. Tie to the code: every operation sequence up to length 4 (quick) over 3 names/3 levels with lookups and function probes after each step, replayed against Context through its public API and against an independent stack-of-maps reference; programs nesting up to 3 macros over a 3-name pool shared with context variables and a function.",
+        "technique": "Lean 4 refinement of the scope chain to a stack of finite maps (induction over scopes / definition lists) + differential correspondence on operation histories and nested-macro programs",
+        "design_ref": "DESIGN.md section 5, C11",
+    },
     "C02": {
         "text": "Proof: eval_no_panic shows that evaluating any tree a compilation can produce (no Unspecified node), in any context - any variables, any registered functions including host functions of any signature - from any state never panics: it yields a value or an execution error; applyBin/applyUn/applyBuiltin_no_panic show the same for the value operators and every built-in on the parameter shapes extraction establishes. Every Rust panic site found while modelling was repaired in /repo (fix: commits) so that the model mirrors the code without exceptions. Tie to the code: well- and ill-typed generated programs to depth 8 against contexts with chrono/i64/u64 extremes, NaN/inf, function values and host functions of arity 0-9, plus all ordered pairs of a ~70-value boundary set under each operator implementation called directly; a panic of the implementation is itself the failing input.",
         "technique": "Lean 4 Hoare-style Sat calculus over the monadic evaluator, induction on Expr (4 motives), extract/loopG lemmas + differential correspondence with catch_unwind panic detection",
